@@ -129,7 +129,7 @@ func ruleR12b(c *Check) {
 	// the ancestor function: in selection, recursive, ranges over dependencies
 	var anc *ssa.Function
 	for _, t := range findTraversals(c) {
-		if engine.InPackage(t.Fn, "selection") && t.Kind == "recursion" {
+		if engine.InPackage(t.Fn, "selection") {
 			anc = t.Fn
 		}
 	}
@@ -139,17 +139,27 @@ func ruleR12b(c *Check) {
 	}
 	aname := c.P.FuncName(anc)
 	// (1) the top-level selector
-	for _, fn := range c.G.CallerFuncs(anc) {
-		if fn == anc {
-			continue
+	var closers []*ssa.Function
+	for _, fn := range c.P.Funcs {
+		if engine.InPackage(fn, "selection") && fn != anc && len(sitesReaching(c, fn, fnSet(anc))) > 0 && len(selectCalls(fn)) > 0 {
+			closers = append(closers, fn)
 		}
+	}
+	sort.Slice(closers, func(i, j int) bool { return c.P.FuncName(closers[i]) < c.P.FuncName(closers[j]) })
+	for _, fn := range closers {
 		fname := c.P.FuncName(fn)
 		for _, sel := range selectCalls(fn) {
 			node := selReceiver(sel)
 			okFollow := false
-			for _, ac := range callsToFn(c, fn, anc) {
+			for _, ac := range sitesReaching(c, fn, fnSet(anc)) {
 				args := ac.Common().Args
-				if !sameVar(args[len(args)-1], node) {
+				hasNode := false
+				for _, a := range args {
+					if sameVar(a, node) || engine.ExprKey(a) == engine.ExprKey(node) {
+						hasNode = true
+					}
+				}
+				if !hasNode {
 					continue
 				}
 				// every path from the Select to a success return passes the ancestor call, and its error is not dropped
@@ -166,7 +176,7 @@ func ruleR12b(c *Check) {
 	var lp *engine.Loop
 	var recSite ssa.CallInstruction
 	for _, t := range findTraversals(c) {
-		if t.Fn == anc && t.Kind == "recursion" {
+		if t.Fn == anc {
 			lp = t.Loop
 			recSite = t.Site.(ssa.CallInstruction)
 		}
@@ -201,7 +211,10 @@ func ruleR12b(c *Check) {
 	})
 	r1 := lp.IterationCanSkip(isSel, seenCut)
 	r2 := lp.IterationCanSkip(engine.IsInstr(recSite), seenCut)
-	r3, _ := engine.PathExists(anc, recSite, toHeader, engine.PathQuery{CutEdge: engine.NilErrEdgesOf(recSite)})
+	r3 := false
+	if engine.ErrResultIndex(recSite.Common().Signature()) >= 0 {
+		r3, _ = engine.PathExists(anc, recSite, toHeader, engine.PathQuery{CutEdge: engine.NilErrEdgesOf(recSite)})
+	}
 	c.Require(!r1 && !r2 && !r3, "R12b", "each-dependency-selected/"+aname, "every iteration selects the dependency and recurses (error propagated), unless it is already selected", fmt.Sprintf("an iteration over the dependencies can finish without selecting the dependency (%v), without recursing into it (%v) or ignoring the recursion's error (%v)", r1, r2, r3), c.P.InstrPos(recSite))
 	// platform mismatch returns before selecting
 	okPlat := true
@@ -264,9 +277,16 @@ func ruleR12c(c *Check) {
 	}
 	var closing *ssa.Function
 	for _, t := range findTraversals(c) {
-		if engine.InPackage(t.Fn, "selection") && t.Kind == "recursion" {
-			for _, f := range c.G.CallerFuncs(t.Fn) {
-				if f != t.Fn {
+		if !engine.InPackage(t.Fn, "selection") {
+			continue
+		}
+		// the selection function called from outside the package through which the traversal is reached
+		for _, f := range c.P.Funcs {
+			if !engine.InPackage(f, "selection") || f == t.Fn || !c.G.ReachableFuncs([]*ssa.Function{f}, nil)[t.Fn] {
+				continue
+			}
+			for _, cf := range c.G.CallerFuncs(f) {
+				if !engine.InPackage(cf, "selection") {
 					closing = f
 				}
 			}
